@@ -1,0 +1,9 @@
+//go:build !verif
+
+package groth16
+
+import "github.com/consensys/gnark-crypto/ecc/bn254/fr"
+
+func verifToxicWaste(*toxicWaste) {}
+
+func verifProverRS(_, _ *fr.Element) {}
